@@ -583,12 +583,33 @@ pub fn closed_diagram(d: &mut Decider, nmax: usize, tmax: usize) -> (GSpec, &'st
                     _ => fam_isolated(d, per.min(2)),
                 };
                 let copies = 1 + d.choose("rep.copies", 3);
-                for _ in 0..copies {
+                for c in 0..copies {
                     if comp.tcount() > t_left {
                         break;
                     }
                     t_left -= comp.tcount();
-                    g.union(&comp);
+                    // a look-alike instead of an exact copy in some places: the same shape with the
+                    // phases permuted among spiders of equal degree - same multiset of (type, phase,
+                    // degree), same scalar, in general another value (what a cheap signature of a
+                    // component cannot tell apart)
+                    if c > 0 && d.coin("rep.twin", 1, 2) {
+                        let mut twin = comp.clone();
+                        let n = twin.verts.len();
+                        for i in 0..n {
+                            let same: Vec<usize> = (0..n).filter(|&j| j != i && twin.degree(j) == twin.degree(i) && twin.verts[j].0 == twin.verts[i].0).collect();
+                            if !same.is_empty() && d.coin("rep.twin.swap", 1, 2) {
+                                let j = same[d.choose("rep.twin.j", same.len())];
+                                let (a, b) = ((twin.verts[i].1, twin.verts[i].2), (twin.verts[j].1, twin.verts[j].2));
+                                twin.verts[i].1 = b.0;
+                                twin.verts[i].2 = b.1;
+                                twin.verts[j].1 = a.0;
+                                twin.verts[j].2 = a.1;
+                            }
+                        }
+                        g.union(&twin);
+                    } else {
+                        g.union(&comp);
+                    }
                 }
             }
             if g.verts.is_empty() {
